@@ -72,3 +72,12 @@ Lemma dispatch_spec_code_variant v apply_spec lp am ss st lv :
                  (map to_sink ss) st lv
   = (spec_writes v apply_spec lp am ss st lv, None).
 Proof. rewrite src_hoist_false. apply dispatch_spec. Qed.
+
+(* the logger's own formatter: _dispatch_transit_event_to_sinks lets loggers with EQUAL PatternFormatterOptions share one
+   PatternFormatter object; M-PATD formats with the logger's own options, which is what the code does only if equality
+   of the options compares every data member (format pattern, timestamp pattern, time zone, multi-line flag) *)
+Lemma src_pfo_eq_compares_every_member : SrcFacts.pfo_eq_compares_every_member = true.
+Proof. vm_compute. reflexivity. Qed.
+Lemma src_pfo_members : SrcFacts.sk_pfo_members =
+  ["add_metadata_to_multi_line_logs"; "format_pattern"; "timestamp_pattern"; "timestamp_timezone"].
+Proof. vm_compute. reflexivity. Qed.
